@@ -3,6 +3,7 @@ import copy
 import itertools
 import json
 import os
+import sys
 import random
 
 from ..collect import Collector
@@ -25,6 +26,7 @@ REQUIRED_MONITORS = ("inside_ignored", "projected_roundtrip", "only_ignored_empt
 ASSUMPTIONS = ["category -> path table from set_notebook_diff_targets' docstring / CLI help / docs/source/config.rst",
                "naming some categories positively ignores all the others (documented exclusive-flag behaviour)"]
 NSHARDS = 16
+NEEDS_STUBS = True      # the git diff tool entry point imports the web application
 
 CAT_PATHS = {
     "sources": ["/cells/*/source"],
@@ -156,6 +158,51 @@ def install(route, S, tmp):
             ns = app._build_arg_parser("nbdiff").parse_args(["a.ipynb", "b.ipynb"])
             process_diff_flags(ns)
         finally:
+            os.chdir(cwd)
+            os.remove(os.path.join(tmp, "nbdime_config.json"))
+    elif route.startswith("config-booleans"):
+        # the six categories switched off (or the complement switched on) by their boolean options in a section of
+        # nbdime_config.json, resolved by the REAL parser of an entry point - plain ones and `<command> <sub-command>` ones
+        _, entry, how = route.split(":")
+        if how == "on":
+            vals = {c: True for c in CATS if c not in S}
+            if not vals:
+                return False
+        else:
+            vals = {c: False for c in CATS if c in S}
+            if not vals:
+                return False
+        section = {"nbdiff": "NbDiff", "nbdiff-generic-section": "Diff", "git-nbdiffdriver": "NbDiffDriver",
+                   "git-nbdiffdriver-generic-section": "GitDiff", "git-nbdifftool": "NbDiffTool"}[entry]
+        with open(os.path.join(tmp, "nbdime_config.json"), "w") as f:
+            json.dump({section: vals}, f)
+        cwd = os.getcwd()
+        os.chdir(tmp)
+        old0 = sys.argv[0]
+        try:
+            if entry.startswith("nbdiff"):
+                ns = app._build_arg_parser("nbdiff").parse_args(["a.ipynb", "b.ipynb"])
+                process_diff_flags(ns)
+            elif entry.startswith("git-nbdiffdriver"):
+                import nbdime.vcs.git.diffdriver as m
+                real = app.main_diff
+                app.main_diff = lambda opts: process_diff_flags(opts) or 0
+                sys.argv[0] = "git-nbdiffdriver"
+                try:
+                    m.main(["diff", "p.ipynb", "a.ipynb", "0" * 40, "100644", "b.ipynb", "1" * 40, "100644"])
+                finally:
+                    app.main_diff = real
+            else:
+                import nbdime.vcs.git.difftool as m
+                real = m.show_diff
+                m.show_diff = lambda before, after, opts: process_diff_flags(opts) or 0
+                sys.argv[0] = "git-nbdifftool"
+                try:
+                    m.main(["diff", "l.ipynb", "r.ipynb", "p.ipynb"])
+                finally:
+                    m.show_diff = real
+        finally:
+            sys.argv[0] = old0
             os.chdir(cwd)
             os.remove(os.path.join(tmp, "nbdime_config.json"))
     from ..nbd import quiet_logging
@@ -458,7 +505,8 @@ def run_shard(spec):
     tmp = os.path.join(os.environ.get("VMON_SCRATCH", "/tmp"), "c14-%s" % spec.get("shard", 0))
     os.makedirs(tmp, exist_ok=True)
     os.chdir(os.environ.get("VMON_SCRATCH", "/tmp"))
-    routes = ["positive", "negative", "ignore-direct", "ignore-config-file"]
+    routes = ["positive", "negative", "ignore-direct", "ignore-config-file", "config-booleans"]
+    cb_entries = ["nbdiff", "git-nbdiffdriver", "git-nbdifftool", "nbdiff-generic-section", "git-nbdiffdriver-generic-section"]
     if "replay" in spec:
         c = spec["replay"]["case"]
         nbd.hygiene()
@@ -515,5 +563,8 @@ def run_shard(spec):
                 except Exception:
                     col.count("unconfigured_diff_raised(C01's business)")
                     continue
-                judge(col, a, b, S, route, tmp, cls, confined, base_diff)
+                route_ = route
+                if route == "config-booleans":
+                    route_ = "config-booleans:%s:%s" % (cb_entries[(cnt + j) % len(cb_entries)], "on" if r.random() < 0.35 else "off")
+                judge(col, a, b, S, route_, tmp, cls, confined, base_diff)
     return col.result()
